@@ -9,29 +9,49 @@ import importlib
 import os
 
 from harness.sched import core
+from harness import names
 
 MODS = ['futures', 'utils', 'download', 'manager', 'bandwidth', 'tasks', 'upload', 'copies', 'delete']
 
 
 class _HookedLock:
-    """Delegates to the shim lock; calls `hook` right after every release."""
+    """Delegates to the shim lock; calls `acquired` right after a successful
+    acquire, `releasing` right before and `hook` right after every release.
+    Hooks only log: an exception in one of them never reaches the code under test."""
 
-    def __init__(self, lock, hook):
-        self._l, self._hook = lock, hook
+    def __init__(self, lock, hook=None, acquired=None, releasing=None):
+        self._l, self._hook, self._acquired, self._releasing = lock, hook, acquired, releasing
+
+    def _call(self, f):
+        if f is not None:
+            try:
+                f()
+            except Exception:
+                pass
 
     def acquire(self, *a, **k):
-        return self._l.acquire(*a, **k)
+        r = self._l.acquire(*a, **k)
+        if r is not False:
+            self._call(self._acquired)
+        return r
 
     def release(self):
+        self._call(self._releasing)
         self._l.release()
-        self._hook()
+        self._call(self._hook)
+
+    def locked(self):
+        return self._l.locked()
 
     def __enter__(self):
-        self._l.acquire()
+        self.acquire()
         return self
 
     def __exit__(self, *a):
         self.release()
+
+    def __getattr__(self, name):          # post_yield etc.
+        return getattr(self._l, name)
 
 
 def _fn_name(fc):
@@ -60,6 +80,8 @@ class Instr:
         self.executors = []      # CoopExecutor instances in creation order
         self.sem_names = {}
         self.missing = []        # methods that could not be instrumented
+        self.broken = []         # log records that could not be produced (a private name moved)
+        self.in_add = {}         # id(thread) -> depth inside add_done_callback / add_failure_cleanup
         self.in_cancel = {}      # id(thread) -> depth inside cancel()
         self.cancel_pending = {} # id(thread) -> True while the locked section has not run
         self.fut_task = {}       # id(ExecutorFuture) -> task id
@@ -68,6 +90,28 @@ class Instr:
     # ---- helpers -----------------------------------------------------------
     def log(self, ev, **kw):
         return self.sched.log(ev, **kw)
+
+    def peek(self, obj, name, what):
+        """obj.<name> for a private name found by role; a miss is recorded, never raised."""
+        try:
+            return getattr(obj, name)
+        except AttributeError:
+            msg = f'{type(obj).__name__}: no attribute for role {what!r} (looked for {name!r})'
+            if msg not in self.broken:
+                self.broken.append(msg)
+            return None
+
+    def st(self, coord):
+        try:
+            return coord.status
+        except Exception:
+            return self.peek(coord, self.CN['status'], 'status')
+
+    def ex(self, coord):
+        try:
+            return coord.exception
+        except Exception:
+            return self.peek(coord, self.CN['exception'], 'exception')
 
     def exc_id(self, e):
         if e is None:
@@ -109,6 +153,9 @@ class Instr:
                 self._patch(m, 'threading', self.shim)
         futures, tasks, utils = mods['futures'], mods['tasks'], mods['utils']
         TC = futures.TransferCoordinator
+        CN = self.CN = names.coordinator(TC)
+        TN = self.TN = names.task(tasks.Task)
+        KN = self.KN = names.count_invoker(utils.CountCallbackInvoker)
 
         def wrap(cls, name, maker):
             orig = cls.__dict__.get(name)
@@ -123,7 +170,7 @@ class Instr:
         def mk_set_result(orig):
             def set_result(self_, result):
                 orig(self_, result)
-                I.log('set_result', t=self_.transfer_id, status=self_._status)
+                I.log('set_result', t=self_.transfer_id, status=I.st(self_))
             return set_result
         wrap(TC, 'set_result', mk_set_result)
 
@@ -131,7 +178,7 @@ class Instr:
             def set_exception(self_, exception, override=False):
                 orig(self_, exception, override)
                 I.log('set_exception', t=self_.transfer_id, exc=I.exc_desc(exception), override=bool(override),
-                      status=self_._status, stored=I.exc_id(self_._exception))
+                      status=I.st(self_), stored=I.exc_id(I.ex(self_)))
             return set_exception
         wrap(TC, 'set_exception', mk_set_exception)
 
@@ -145,67 +192,72 @@ class Instr:
                     orig(self_, msg, exc_type)
                 finally:
                     I.in_cancel[id(me)] -= 1
-                I.log('cancel_return', t=self_.transfer_id, status=self_._status,
-                      stored=I.exc_desc(self_._exception))
+                I.log('cancel_return', t=self_.transfer_id, status=I.st(self_),
+                      stored=I.exc_desc(I.ex(self_)))
             return cancel
         wrap(TC, 'cancel', mk_cancel)
 
-        def mk_transition(orig):
-            def _transition_to_non_done_state(self_, desired):
-                try:
-                    orig(self_, desired)
-                except RuntimeError:
-                    I.log('status_transition', t=self_.transfer_id, to=desired, ok=False, status=self_._status)
-                    raise
-                I.log('status_transition', t=self_.transfer_id, to=desired, ok=True, status=self_._status)
-            return _transition_to_non_done_state
-        wrap(TC, '_transition_to_non_done_state', mk_transition)
+        def mk_transition(desired):
+            def maker(orig):
+                def set_status(self_):
+                    try:
+                        orig(self_)
+                    except RuntimeError:
+                        I.log('status_transition', t=self_.transfer_id, to=desired, ok=False, status=I.st(self_))
+                        raise
+                    I.log('status_transition', t=self_.transfer_id, to=desired, ok=True, status=I.st(self_))
+                return set_status
+            return maker
+        wrap(TC, 'set_status_to_queued', mk_transition('queued'))
+        wrap(TC, 'set_status_to_running', mk_transition('running'))
 
-        def mk_run_callbacks(orig):
-            def _run_callbacks(self_, callbacks):
-                which = 'done_callbacks' if callbacks is self_._done_callbacks else (
-                    'failure_cleanups' if callbacks is self_._failure_cleanups else 'other')
-                I.log('run_begin', t=self_.transfer_id, which=which, n=len(callbacks), status=self_._status)
-                try:
-                    orig(self_, callbacks)
-                finally:
-                    I.log('run_end', t=self_.transfer_id, which=which)
-            return _run_callbacks
-        wrap(TC, '_run_callbacks', mk_run_callbacks)
-
-        def mk_run_callback(orig):
-            def _run_callback(self_, callback):
-                I.log('callback_begin', t=self_.transfer_id, fn=_fn_name(callback))
-                s.yield_point('callback')
-                orig(self_, callback)
-                I.log('callback_end', t=self_.transfer_id, fn=_fn_name(callback))
-            return _run_callback
-        wrap(TC, '_run_callback', mk_run_callback)
-
+        # Callback runs are observed through the public registration API (the registered
+        # function is wrapped) and through the two callback locks (taken by add_* and by
+        # the runner that announce_done calls): no private method is hooked.
         def mk_announce(orig):
             def announce_done(self_):
-                I.log('announce_begin', t=self_.transfer_id, status=self_._status)
+                I.log('announce_begin', t=self_.transfer_id, status=I.st(self_))
                 orig(self_)
                 I.log('announce_end', t=self_.transfer_id)
             return announce_done
         wrap(TC, 'announce_done', mk_announce)
 
-        def mk_add(kind):
+        def mk_add(kind, which):
             def maker(orig):
                 def add(self_, function, *args, **kwargs):
-                    orig(self_, function, *args, **kwargs)
-                    I.log(kind, t=self_.transfer_id, fn=_fn_name(function))
+                    name = _fn_name(function)
+                    tid = self_.transfer_id
+
+                    def logged(*a, **k):
+                        I.log('callback_begin', t=tid, fn=name, which=which)
+                        s.yield_point('callback')
+                        try:
+                            r = function(*a, **k)
+                        except Exception:
+                            I.log('callback_end', t=tid, fn=name, which=which)
+                            raise
+                        I.log('callback_end', t=tid, fn=name, which=which)
+                        return r
+                    logged.__name__ = getattr(function, '__name__', 'callback')
+                    logged.__wrapped__ = function
+                    me = id(s.me())
+                    I.in_add[me] = I.in_add.get(me, 0) + 1
+                    try:
+                        orig(self_, logged, *args, **kwargs)
+                    finally:
+                        I.in_add[me] -= 1
+                    I.log(kind, t=tid, fn=name)
                 return add
             return maker
-        wrap(TC, 'add_done_callback', mk_add('add_done_callback'))
-        wrap(TC, 'add_failure_cleanup', mk_add('add_failure_cleanup'))
+        wrap(TC, 'add_done_callback', mk_add('add_done_callback', 'done_callbacks'))
+        wrap(TC, 'add_failure_cleanup', mk_add('add_failure_cleanup', 'failure_cleanups'))
 
         def mk_submit(orig):
             def submit(self_, executor, task, tag=None):
                 k = I.task_id(task)
                 I.log('submit_call', t=self_.transfer_id, task=k, cls=type(task).__name__,
                       stage=I.stage_of(executor), tag=getattr(tag, 'name', None),
-                      final=bool(task._is_final), deps=I.deps_of(task))
+                      final=bool(I.peek(task, TN['is_final'], 'is_final')), deps=I.deps_of(task))
                 fut = orig(self_, executor, task, tag)
                 I.fut_task[id(fut)] = k
                 I.keep.append(fut)
@@ -219,9 +271,9 @@ class Instr:
                 try:
                     r = orig(self_)
                 except BaseException as e:
-                    I.log('result_raise', t=self_.transfer_id, exc=I.exc_desc(e), status=self_._status)
+                    I.log('result_raise', t=self_.transfer_id, exc=I.exc_desc(e), status=I.st(self_))
                     raise
-                I.log('result_return', t=self_.transfer_id, status=self_._status)
+                I.log('result_return', t=self_.transfer_id, status=I.st(self_))
                 return r
             return result
         wrap(TC, 'result', mk_result)
@@ -230,18 +282,44 @@ class Instr:
         def mk_tc_init(orig):
             def __init__(self_, transfer_id=None):
                 orig(self_, transfer_id)
-                ev = self_._done_event
-                real_set = ev.set
+                ev = I.peek(self_, CN['done_event'], 'done_event')
+                if ev is None or not names.event_like(ev):
+                    evs = [v for v in vars(self_).values() if names.event_like(v)]
+                    ev = evs[0] if len(evs) == 1 else None
+                if ev is not None:
+                    real_set = ev.set
 
-                def logged_set():
-                    real_set()
-                    I.log('event_set', t=self_.transfer_id, status=self_._status)
-                ev.set = logged_set
+                    def logged_set():
+                        real_set()
+                        I.log('event_set', t=self_.transfer_id, status=I.st(self_))
+                    ev.set = logged_set
+                elif 'TransferCoordinator: done event not found' not in I.broken:
+                    I.broken.append('TransferCoordinator: done event not found')
                 # the wrappers of this class log a record right after the call returns: keep
                 # "critical section + its log record" one scheduling step (no yield after release)
-                for nm in ('_lock', '_associated_futures_lock', '_done_callbacks_lock', '_failure_cleanups_lock'):
-                    getattr(self_, nm).post_yield = False
-                self_._lock = _HookedLock(self_._lock, lambda: I.on_state_lock_release(self_))
+                for nm in names.instance_locks(self_):
+                    lk = getattr(self_, nm)
+                    if hasattr(lk, 'post_yield'):
+                        lk.post_yield = False
+                sl = CN['state_lock']
+                if names.lock_like(getattr(self_, sl, None)):
+                    setattr(self_, sl, _HookedLock(getattr(self_, sl), hook=lambda: I.on_state_lock_release(self_)))
+                else:
+                    I.peek(self_, sl, 'state_lock')
+                for role, which in (('done_callbacks_lock', 'done_callbacks'), ('failure_cleanups_lock', 'failure_cleanups')):
+                    nm = CN[role]
+                    if not names.lock_like(getattr(self_, nm, None)) or nm == sl:
+                        I.peek(self_, nm if nm != sl else '<distinct lock>', role)
+                        continue
+
+                    def acquired(which=which):
+                        if not I.in_add.get(id(s.me()), 0):
+                            I.log('run_begin', t=self_.transfer_id, which=which, status=I.st(self_))
+
+                    def releasing(which=which):
+                        if not I.in_add.get(id(s.me()), 0):
+                            I.log('run_end', t=self_.transfer_id, which=which)
+                    setattr(self_, nm, _HookedLock(getattr(self_, nm), acquired=acquired, releasing=releasing))
             return __init__
         wrap(TC, '__init__', mk_tc_init)
 
@@ -251,12 +329,14 @@ class Instr:
         def mk_call(orig):
             def __call__(self_, ctx=None):
                 k = I.task_id(self_)
-                I.log('task_start', t=self_.transfer_id, task=k, cls=type(self_).__name__, final=bool(self_._is_final))
+                I.log('task_start', t=self_.transfer_id, task=k, cls=type(self_).__name__,
+                      final=bool(I.peek(self_, TN['is_final'], 'is_final')))
                 s.yield_point('task_start')
                 try:
                     return orig(self_, ctx)
                 finally:
-                    fo = self_._main_kwargs.get('fileobj') if isinstance(self_._main_kwargs, dict) else None
+                    mk = getattr(self_, TN['main_kwargs'], None)
+                    fo = mk.get('fileobj') if isinstance(mk, dict) else None
                     for _ in range(6):          # ReadFileChunk -> (BandwidthLimitedStream) -> InterruptReader -> BytesIO
                         if fo is None:
                             break
@@ -276,17 +356,18 @@ class Instr:
                 orig(self_)
                 I.log('deps_done', t=self_.transfer_id, task=I.task_id(self_))
             return _wait_on_dependent_futures
-        wrap(Task, '_wait_on_dependent_futures', mk_wait_deps)
+        wrap(Task, TN['wait_deps'], mk_wait_deps)
 
         def mk_get_kwargs(orig):
             def _get_all_main_kwargs(self_):
                 r = orig(self_)
                 # the done() check follows immediately (no yield point in between)
+                co = I.peek(self_, TN['coordinator'], 'coordinator')
                 I.log('done_check', t=self_.transfer_id, task=I.task_id(self_),
-                      done=bool(self_._transfer_coordinator.done()))
+                      done=bool(co.done()) if co is not None else None)
                 return r
             return _get_all_main_kwargs
-        wrap(Task, '_get_all_main_kwargs', mk_get_kwargs)
+        wrap(Task, TN['get_kwargs'], mk_get_kwargs)
 
         def mk_exec_main(orig):
             def _execute_main(self_, kwargs):
@@ -301,7 +382,7 @@ class Instr:
                 I.log('main_end', t=self_.transfer_id, task=k, ok=True)
                 return r
             return _execute_main
-        wrap(Task, '_execute_main', mk_exec_main)
+        wrap(Task, TN['execute_main'], mk_exec_main)
 
         def mk_wait_all(orig):
             def _wait_for_all_submitted_futures_to_complete(self_):
@@ -381,13 +462,15 @@ class Instr:
         def mk_quiet_init(orig, names):
             def __init__(self_, *a, **k):
                 orig(self_, *a, **k)
-                for nm in names:
-                    lk = getattr(self_, nm, None)
+                for lk in list(vars(self_).values()):      # every lock / condition the object created
                     if hasattr(lk, 'post_yield'):
                         lk.post_yield = False
+                    for inner in (getattr(lk, '_lock', None), getattr(lk, 'lock', None)):
+                        if hasattr(inner, 'post_yield'):
+                            inner.post_yield = False
             return __init__
-        wrap(utils.SlidingWindowSemaphore, '__init__', lambda o: mk_quiet_init(o, ('_lock',)))
-        wrap(utils.CountCallbackInvoker, '__init__', lambda o: mk_quiet_init(o, ('_lock',)))
+        wrap(utils.SlidingWindowSemaphore, '__init__', lambda o: mk_quiet_init(o, None))
+        wrap(utils.CountCallbackInvoker, '__init__', lambda o: mk_quiet_init(o, None))
 
         # -- count-down invoker ---------------------------------------------------
         CCI = utils.CountCallbackInvoker
@@ -395,8 +478,8 @@ class Instr:
             def mk_cci(orig, nm=nm):
                 def f(self_):
                     orig(self_)
-                    I.log('countdown', op=nm, obj=id(self_) % 100000, count=self_._count,
-                          finalized=self_._is_finalized)
+                    I.log('countdown', op=nm, obj=id(self_) % 100000, count=I.peek(self_, KN['count'], 'count'),
+                          finalized=I.peek(self_, KN['finalized'], 'finalized'))
                 return f
             wrap(CCI, nm, mk_cci)
         return self
@@ -407,20 +490,26 @@ class Instr:
         me = self.sched.me()
         if self.in_cancel.get(id(me), 0) > 0 and not self.cancel_pending.get(id(me)):
             self.cancel_pending[id(me)] = True
-            self.log('cancel_applied', t=coord.transfer_id, status=coord._status,
-                     stored=self.exc_desc(coord._exception))
+            self.log('cancel_applied', t=coord.transfer_id, status=self.st(coord),
+                     stored=self.exc_desc(self.ex(coord)))
 
     # ---- naming ----------------------------------------------------------------
     def bind_manager(self, manager):
         self.manager = manager
-        self.stage_names = {id(manager._submission_executor): 'sub',
-                            id(manager._request_executor): 'req',
-                            id(manager._io_executor): 'io'}
-        self.sem_names[id(manager._submission_executor._semaphore)] = 'sub'
-        self.sem_names[id(manager._request_executor._semaphore)] = 'req'
-        self.sem_names[id(manager._io_executor._semaphore)] = 'io'
-        for tag, sem in manager._request_executor._tag_semaphores.items():
-            self.sem_names[id(sem)] = tag.name
+        stages = names.manager_stages(manager)
+        self.stage_names = {id(ex): role for role, ex in stages.items()}
+        for role in ('sub', 'req', 'io'):
+            if role not in stages:
+                self.broken.append(f'TransferManager: executor for stage {role!r} not found')
+                continue
+            sem = names.executor_semaphore(stages[role])
+            if sem is None:
+                self.broken.append(f'BoundedExecutor: semaphore of stage {role!r} not found')
+            else:
+                self.sem_names[id(sem)] = role
+        if 'req' in stages:
+            for tag, sem in names.executor_tag_semaphores(stages['req']).items():
+                self.sem_names[id(sem)] = tag.name
 
     def stage_of(self, executor):
         return getattr(self, 'stage_names', {}).get(id(executor), 'exec?')
@@ -430,7 +519,7 @@ class Instr:
 
     def deps_of(self, task):
         out = []
-        for v in task._pending_main_kwargs.values():
+        for v in (getattr(task, self.TN['pending_main_kwargs'], None) or {}).values():
             for f in (v if isinstance(v, list) else [v]):
                 out.append(self.fut_task.get(id(f), -1))
         return out
